@@ -92,6 +92,11 @@ META = {
         "note": "Trusted: as C20. One poller only (multi-loop sharing of the process-wide records is not covered); shutdown() is represented by the del_read/del_write it performs.",
         "design_ref": "DESIGN.md §4 C21",
     },
+    "C22": {
+        "text": "Theorems on the bookkeeping model of monitor.rs, any number of scheduling threads, any times, late or stale signal delivery: the handler never touches a thread whose current coroutine is not Running (C22_syscall_never_preempted) and entering a system call withdraws the node (C22_syscall_withdraws_node); a coroutine Running since t0 is signalled by every scan from t0 + slice on and the handler suspends it (C22_long_runner_interrupted), not before (C22_not_before_slice); other threads' records are untouched (C22_frame); wherever preemptions fall the computed value is the same (C22_result_unchanged). Tie: the harness built with the `preemptive` feature runs real busy / syscall-state / yielding coroutines on 1-8 scheduling threads and checks values, preemption counts per section, completion and starvation. Known finding: crashes or hangs with six or more scheduling threads holding several started coroutines.",
+        "note": "Trusted: Lean kernel; hand-written model; kernel signal delivery; corosensei. Partial: the model is the bookkeeping; memory/lock safety of preempting at an arbitrary instruction is exercised on the real code only.",
+        "design_ref": "DESIGN.md I.3 / §4 C22",
+    },
     "C23": {
         "text": "Theorems over every nest of maybe_grow_with calls (any depths, red-zone/size pairs, remaining-stack readings, panic and catch placement), for the coroutine and the plain-thread path: registered segments after a call equal those before it, on return and on unwinding (C23_restored); every callback starts with at least its red zone available (C23_room); the callback's value is returned (C23_value); growth decisions after a caught panic are those of a fresh state (C23_recursion_after_panic); the pre-fix thread path refuted by a witness. Tie: real nested calls with real frames inside a coroutine and on a plain thread, panics caught at generated levels; per call the depth before/inside/after, growth and room observed and compared.",
         "note": "Trusted: Lean kernel; model; stack switching and page rounding; the harness' stack measurements. The property's 'deep recursion keeps working' is exercised up to 5 nested growths per chain, several chains per thread.",
